@@ -83,6 +83,7 @@ def sweep(rng, n):
 def run(ctx):
     n = ctx.n(2500, 30000)
     fails, dist, skipped = sweep(ctx.rng, n)
+    fails = fails + common.threshold_failures('C12', ctx.quick())
     c = A.corr(ctx.rng, ctx.n(1200, 12000))
     return {'failures': fails, 'disagreements': c['disagreements'][:20],
             'evaluations': n + c['evaluations'], 'distinct_nontrivial': c['distinct_nontrivial'],
@@ -125,6 +126,9 @@ def shrink(f):
 
 
 def replay(payload):
+    _f = payload.get('failure') or {}
+    if _f.get('threshold_input'):
+        return common.threshold_replay('C12', _f)
     f = payload.get('failure')
     if not f or 'inst' not in f:
         return {'fails': False, 'note': 'no concrete instance: ' + str(payload.get('no_longer_checks'))}
